@@ -24,9 +24,20 @@ pub struct ProverRun {
 
 /// Run the library prover over F, read back the nonces and validate the read-back with the reference prover
 pub fn observed_prove(cfg: &Cfg, wit: &Wit, ctx: &Ctx, rng: &mut HRng, res: &mut CaseResult, sub: &str) -> Option<ProverRun> {
+    observed_prove_src(cfg, wit, ctx, Some(rng), res, sub)
+}
+
+/// `rng = None`: the `prove` entry point that takes its randomness from the operating system
+pub fn observed_prove_src(cfg: &Cfg, wit: &Wit, ctx: &Ctx, rng: Option<&mut HRng>, res: &mut CaseResult, sub: &str) -> Option<ProverRun> {
     let built = build_cached::<F>(cfg, wit).ok()?;
     merlin::observe::start();
-    let r = catch(|| lib_prove(&built, ctx, rng));
+    let r = catch(|| match rng {
+        Some(rng) => lib_prove(&built, ctx, rng),
+        None => {
+            let mut t = ctx.transcript();
+            F::prove_os(&mut t, &built.statement, &built.witness)
+        },
+    });
     let trace = merlin::observe::take();
     res.executions += 1;
     let proof = match r {
@@ -105,6 +116,34 @@ fn nonce_case(cfg: Cfg, seeded: bool, wit_variant: usize) -> Box<dyn Case> {
             match observed_prove(&cfg, &wit, &CTX_A, &mut HRng::from_model(s), &mut res, s) {
                 Some(r) => runs.push(r),
                 None => return res,
+            }
+        }
+        // the OS-randomness entry point, called twice with identical inputs: a third and fourth stream
+        let mut os_runs = Vec::new();
+        for i in 0..2 {
+            if let Some(r) = observed_prove_src(&cfg, &wit, &CTX_A, None, &mut res, &format!("os-rng-{}", i)) {
+                check_within(&r, &format!("os-rng-{}", i), &mut res);
+                os_runs.push(r);
+            }
+        }
+        if os_runs.len() == 2 {
+            res.transitions += 1;
+            if !seeded {
+                let set_b: BTreeMap<[u8; 32], String> = os_runs[1].nonces.all().into_iter().map(|(n, v)| (v.to_bytes(), n)).collect();
+                for (name, v) in os_runs[0].nonces.all() {
+                    res.validated += 1;
+                    if let Some(other) = set_b.get(&v.to_bytes()) {
+                        res.violate(format!("os-rng/{}", name), format!("two calls of the OS-randomness entry point with identical inputs share nonce {} (= {})", name, other));
+                    }
+                }
+            } else if os_runs[0].nonces.r == os_runs[1].nonces.r || os_runs[0].nonces.s == os_runs[1].nonces.s {
+                res.violate("os-rng/rs", "two calls of the OS-randomness entry point with identical inputs share a final masking scalar");
+            }
+        }
+        // a stuck external generator: the nonces of one proof must still be nonzero and pairwise distinct
+        for fault in ["zero", "const5a"] {
+            if let Some(r) = observed_prove(&cfg, &wit, &CTX_A, &mut HRng::from_model(fault), &mut res, fault) {
+                check_within(&r, fault, &mut res);
             }
         }
         for (s, r) in streams.iter().zip(runs.iter()) {
@@ -204,7 +243,7 @@ fn nonce_case(cfg: Cfg, seeded: bool, wit_variant: usize) -> Box<dyn Case> {
 }
 
 pub fn run(rep: &mut Report) {
-    rep.rule = "configuration lattice x seed {absent, present (m=1)} x two witnesses x three RNG streams (every ordered pair): nonces \
+    rep.rule = "configuration lattice x seed {absent, present (m=1)} x two witnesses x three RNG streams (every ordered pair), two calls of the OS-randomness entry point, and two stuck generators (within-proof distinctness only): nonces \
                 (alpha_k, dL_jk, dR_jk, d_k, eta_k, r, s) read back from the coordinates of the library's proof over F; oracle: nonzero, \
                 pairwise distinct within a proof; unseeded: no nonce of one run equals ANY nonce of another run; seeded: alpha, dL, dR, \
                 d, eta equal the documented keyed-Blake2b function, r and s still differ between runs; the read-back is validated by the \
